@@ -47,6 +47,10 @@ theorem uint32_eq (ver : Ver) (e : Endian) (n pos : Nat) (h : n < 2 ^ 32) :
     Spec.uint32 ver e n pos = (wPrim ver e .u32 n pos).1 :=
   primitive_eq ver e .u32 n pos (primOk_u32 n h)
 
+theorem uint16_eq (ver : Ver) (e : Endian) (n pos : Nat) (h : primOk .u16 n = true) :
+    Spec.uint16 ver e n pos = (wPrim ver e .u16 n pos).1 :=
+  primitive_eq ver e .u16 n pos h
+
 theorem elements_eq (f : Val → Nat → W) (g : Val → Nat → Bytes) (vs : List Val)
     (h : ∀ v ∈ vs, ∀ p, (f v p).1 = g v p ∧ (f v p).2 = p + (f v p).1.length) (pos : Nat) :
     (wList f vs pos).1 = Spec.elements g vs pos := by
@@ -164,7 +168,21 @@ theorem ser_eq_spec (d : Spec.Dialect) (cfg : Cfg) (ver : Ver) (e : Endian) : (t
     simp only [maxSize] at hs
     simp only [ser, Spec.ser, wStr, Spec.string]
     rw [uint32_eq ver e _ pos (by omega), Nat.mod_eq_of_lt (by omega)]
-  | .enum hd ls, .num n, h, _, _, _, pos => by
+  | .wstr, .list us, h, _, _, hs, pos => by
+    simp only [wfVal, Bool.and_eq_true, List.all_eq_true] at h
+    simp only [maxSize] at hs
+    have hl : us.length + 1 < 2 ^ 32 := by omega
+    have h3 := wPrim_pos ver e .u32 (us.length + 1) pos
+    have hb := elements_eq (fun v p => wPrim ver e .u16 v.unit p) (fun v r => Spec.uint16 ver e v.unit r) us
+      (fun v hv p => ⟨(uint16_eq ver e v.unit p (unitOk_primOk v (h.1 v hv))).symm, wPrim_pos ver e .u16 v.unit p⟩)
+      (wPrim ver e .u32 (us.length + 1) pos).2
+    have hbp := wList_pos (fun v p => wPrim ver e .u16 v.unit p) us
+      (fun v _ q => wPrim_pos ver e .u16 v.unit q) (wPrim ver e .u32 (us.length + 1) pos).2
+    simp only [ser, Spec.ser, wWStr, Spec.wstring, Nat.mod_eq_of_lt hl]
+    rw [uint32_eq ver e _ pos hl, ← h3, ← hb, uint16_eq ver e 0 _ (by decide)]
+    congr 2
+    rw [hbp, h3]
+  | .enum hd ls _, .num n, h, _, _, _, pos => by
     simp only [wfVal, Bool.and_eq_true, decide_eq_true_eq] at h
     simp only [ser, Spec.ser, primitive_eq ver e hd n pos (enum_primOk hd n h.1.1 h.1.2)]
   | .seq el, .list vs, h, hnm, hid, hs, pos => by
@@ -269,10 +287,47 @@ theorem ser_eq_spec (d : Spec.Dialect) (cfg : Cfg) (ver : Ver) (e : Endian) : (t
       exact delimited_eq .v2 e _ _ pos hbody hsz
   | .prim _, .str _, h, _, _, _, _ | .prim _, .list _, h, _, _, _, _ | .prim _, .struct _, h, _, _, _, _ | .prim _, .absent, h, _, _, _, _ => by simp [wfVal] at h
   | .str, .num _, h, _, _, _, _ | .str, .list _, h, _, _, _, _ | .str, .struct _, h, _, _, _, _ | .str, .absent, h, _, _, _, _ => by simp [wfVal] at h
-  | .enum _ _, .str _, h, _, _, _, _ | .enum _ _, .list _, h, _, _, _, _ | .enum _ _, .struct _, h, _, _, _, _ | .enum _ _, .absent, h, _, _, _, _ => by simp [wfVal] at h
+  | .enum _ _ _, .str _, h, _, _, _, _ | .enum _ _ _, .list _, h, _, _, _, _ | .enum _ _ _, .struct _, h, _, _, _, _ | .enum _ _ _, .absent, h, _, _, _, _ => by simp [wfVal] at h
+  | .wstr, .num _, h, _, _, _, _ | .wstr, .str _, h, _, _, _, _ | .wstr, .struct _, h, _, _, _, _ | .wstr, .absent, h, _, _, _, _ => by simp [wfVal] at h
   | .seq _, .num _, h, _, _, _, _ | .seq _, .str _, h, _, _, _, _ | .seq _, .struct _, h, _, _, _, _ | .seq _, .absent, h, _, _, _, _ => by simp [wfVal] at h
   | .arr _ _, .num _, h, _, _, _, _ | .arr _ _, .str _, h, _, _, _, _ | .arr _ _, .struct _, h, _, _, _, _ | .arr _ _, .absent, h, _, _, _, _ => by simp [wfVal] at h
+  | .union disc bs, .struct fs, h, hnm, hid, hs, pos => by
+    simp only [wfVal] at h
+    split at h
+    · rename_i x bid v
+      simp only [Bool.and_eq_true] at h
+      obtain ⟨⟨⟨⟨hp, _⟩, _⟩, _⟩, hb⟩ := h
+      have hnm' : noMutableB bs = true ∨ d = Spec.Dialect.dust :=
+        hnm.imp (fun h => by simpa [noMutable] using h) (fun x => x)
+      simp only [shortIds] at hid
+      simp only [maxSize] at hs
+      have h3 := wPrim_pos ver e disc x pos
+      simp only [ser, Spec.ser]
+      rw [primitive_eq ver e disc x pos hp, serB_eq_spec d cfg ver e bs bid v hb hnm' hid (by omega), h3]
+    · simp at h
+  | .union _ _, .num _, h, _, _, _, _ | .union _ _, .str _, h, _, _, _, _ | .union _ _, .list _, h, _, _, _, _ | .union _ _, .absent, h, _, _, _, _ => by simp [wfVal] at h
   | .struct _ _, .num _, h, _, _, _, _ | .struct _ _, .str _, h, _, _, _, _ | .struct _ _, .list _, h, _, _, _, _ | .struct _ _, .absent, h, _, _, _, _ => by simp [wfVal] at h
+theorem serB_eq_spec (d : Spec.Dialect) (cfg : Cfg) (ver : Ver) (e : Endian) : (bs : Bs) → (bid : Nat) → (v : Val) →
+    wfB cfg ver bs bid v = true → (noMutableB bs = true ∨ d = Spec.Dialect.dust) → shortIdsB ver bs = true →
+    maxSizeB bs bid v < 2 ^ 32 →
+    ∀ pos, (serB cfg ver e bs bid v pos).1 = Spec.branch d ver e bs bid v pos
+  | .nil, _, _, h, _, _, _, _ => by simp [wfB] at h
+  | .cons id' _ _ t r, bid, v, h, hnm, hid, hs, pos => by
+    simp only [wfB] at h
+    simp only [maxSizeB] at hs
+    simp only [shortIdsB, Bool.and_eq_true] at hid
+    have hnm1 : noMutable t = true ∨ d = Spec.Dialect.dust :=
+      hnm.imp (fun h => by simp only [noMutableB, Bool.and_eq_true] at h; exact h.1) (fun x => x)
+    have hnm2 : noMutableB r = true ∨ d = Spec.Dialect.dust :=
+      hnm.imp (fun h => by simp only [noMutableB, Bool.and_eq_true] at h; exact h.2) (fun x => x)
+    simp only [serB, Spec.branch]
+    split
+    · rename_i hq
+      simp only [hq, if_true] at h hs
+      exact ser_eq_spec d cfg ver e t v h hnm1 hid.1 hs pos
+    · rename_i hq
+      simp only [hq, Bool.false_eq_true, if_false] at h hs
+      exact serB_eq_spec d cfg ver e r bid v h hnm2 hid.2 hs pos
 theorem serF_eq_spec (d : Spec.Dialect) (cfg : Cfg) (ver : Ver) (e : Endian) : (ms : Ms) → (fs : List Val) →
     wfFs cfg ver ms fs = true → (noMutableMs ms = true ∨ d = Spec.Dialect.dust) → shortIdsMs ver false ms = true →
     maxSizeMs ms fs < 2 ^ 32 →
